@@ -2,7 +2,7 @@ SPECIFICATION Spec
 CONSTANTS
   MaxRoots = 3
   MaxFiles = 3
-  FileFaults = {"D"}
+  FileFaults = {"D", "H"}
   RootFaults = {}
   Combos <- MCCombos
   GenMode = "companion"
